@@ -10,16 +10,29 @@ CFG = dict(
          "f64, f32, Option<f64>; backends Vec (index body, returned and caller buffer), VecDeque / option view (iterator body); "
          "compared with the model at Coq's binary64 within 1e-9 (1e-7 skew/kurt) relative to max(1,|x|,4e4), nullness "
          "exact; a case is non-trivial when the series is non-empty (nt=0 otherwise)",
-    theorem_hint="Props/C01.v: C01_state_tracks_window, C01_ts_v{sum,mean,var,std,skew,kurt,ewm,wma}, C01_ts_fdiff",
+    theorem_hint="Props/C01.v: C01_state_tracks_window, C01_ts_v{sum,mean,var,std,skew,kurt,ewm,wma}, C01_ts_fdiff, C01_ts_vfdiff (+ _textbook, _depends_on_valid_only, _nulls_shift_weights), C01_fdiff_coef_{length,nth,last,d1,integer_*}, C01_plain_equals_null_aware, C01_zero_variance_outputs, C01_ts_vewm_total",
     level_text="Proof (Coq, carrier option R = exact reals + absorbing NaN): the generic add-emit-remove sliding invariant "
                "(Proofs/Sliding.v) gives, for every series, window >= 1, min_periods, position and both driver bodies, that the "
-               "accumulator holds exactly the count and power sums of the non-null window (C01_state_tracks_window), and 15 "
-               "theorems output_i = textbook statistic of the window for sum, mean, sample variance, sample std (EPS floor "
-               "explicit and bounded by 2 EPS), adjusted skewness, adjusted excess kurtosis, exponentially weighted mean "
-               "(= normalised weighted average), linearly weighted mean, plain fractional difference (weights (-1)^k C(d,k) "
-               "on the k-th most recent element, warm-up included) and the plain family = null-aware family on null-free input. "
-               "Partial: the null-aware ts_vfdiff is covered by model + correspondence only. The model is tied to the code by "
-               "~14k differential cases per run at Coq's binary64.",
+               "accumulator holds exactly the count and power sums of the non-null window (C01_state_tracks_window), and 49 further "
+               "theorems: output_i = textbook statistic of the window for sum, mean, sample variance, sample std (EPS floor "
+               "explicit; bounded by 2 EPS for var and sqrt(2 EPS) for std), adjusted skewness, adjusted excess kurtosis (both "
+               "exactly 0 when the population variance is <= EPS: C01_zero_variance_outputs, constant windows included), "
+               "exponentially weighted mean (= normalised weighted average, null iff the window has no valid element: "
+               "C01_ts_vewm_total), linearly weighted mean, plain fractional difference (weights (-1)^k C(d,k) on the k-th most "
+               "recent element, warm-up included; also in series coordinates, C01_ts_fdiff_textbook) and the null-aware "
+               "ts_vfdiff (C01_ts_vfdiff: null iff fewer than min(min_periods or w/2, w) valid elements in the window, otherwise "
+               "the fractional difference of the COMPACTED window - the k-th most recent valid element gets (-1)^k C(d,k), so a "
+               "null shifts the weights of all older elements and a null current element does not null the output; pinned by "
+               "C01_vfdiff_nulls_shift_weights / _current_null_not_null / _depends_on_valid_only). Coefficient table: length w for "
+               "every carrier, entry k from the end = (-1)^k C(d,k) with C the generalised binomial product and its recurrence, "
+               "last entry 1, integer order n = binomial numbers up to n and exactly 0 beyond (so fdiff of integer order is the "
+               "window-truncated n-th finite difference; order 0 identity; order 1, w >= 2 = first difference, table "
+               "[0..0,-1,1]). Plain = null-aware on null-free input for all nine entry points by name "
+               "(C01_plain_equals_null_aware; for fdiff position by position, whole outputs when the effective min_periods <= 1, "
+               "masked warm-up otherwise). Weights in the literature's recurrence form, negative and decreasing in magnitude for 0 < d < 1; "
+               "the repository's own unit-test vectors (test_fdiff_coef, test_fdiff) derived exactly. window = 0 is rejected by both fractional differences (C01_fdiff_window0). "
+               "Not covered by theorems: order d = NaN, binary64 rounding (correspondence only). The model is tied to the code "
+               "by ~14k differential cases per run at Coq's binary64.",
     level_note="Trusted: Coq kernel + Reals axioms (sig_forall_dec, sig_not_dec, functional_extensionality_dep); the model of "
                "features.rs/rolling.rs; IEEE rounding is outside the theorems (exact reals) and absorbed by the 1e-9 tolerance; "
                "C++ special::binom modelled by the generalised binomial product; f64::powi modelled as compiler-rt's square-and-multiply.",
